@@ -220,7 +220,7 @@ def _expand(args):
     seed_i, hist = args
     mod, ctx = _MOD, _CTX
     out = []
-    acc = Acc()
+    acc = Acc(len(hist))      # violations are ordered by history length: shortest counter-example first
     try:
         state = mod.build(seed_i, hist, ctx)
     except Exception:
@@ -259,10 +259,9 @@ def bfs(mod, ctx) -> Total:
         for seed_i, hist, out, p in pool_map(_expand, frontier, chunksize=4):
             tot.add(p)
             for key, op, info in sorted(out, key=lambda x: jkey(x[1])):
-                tot.transitions += 1
                 if info is not None:
                     edges[jkey(info)] += 1
-                if key not in seen:
+                if key is not None and key not in seen:
                     seen[key] = (seed_i, hist + [op])
                     nxt.append((seed_i, hist + [op]))
         nxt.sort(key=lambda x: (len(x[1]), x[0], jkey(x[1])))
@@ -489,6 +488,10 @@ def main(argv=None):
         return run_check(a.pid.upper(), a.tier, seed)
     except HarnessError as e:
         print(f"HARNESS-ERROR property={a.pid.upper()}: {e}", file=sys.stderr)
+        return 2
+    except BaseException as e:  # noqa: BLE001  (a crash of the harness must never look like exit 1)
+        traceback.print_exc()
+        print(f"HARNESS-ERROR property={a.pid.upper()}: crashed: {type(e).__name__}: {e}", file=sys.stderr)
         return 2
 
 
